@@ -3,7 +3,6 @@ package c20
 import (
 	"bytes"
 	"crypto/ecdsa"
-	"encoding/binary"
 	"fmt"
 	"io"
 	"math/big"
@@ -26,8 +25,7 @@ type malformed struct {
 func rawEph(name string, mustFail bool, raw func(m *evil, r *rand.Rand) []byte) malformed {
 	return malformed{"eph:" + name, mustFail, func(m *evil, r *rand.Rand) {
 		m.e.Write(raw(m, r))
-		// keep reading what the endpoint sends until it hangs up, then hang up too
-		io.Copy(io.Discard, m.e)
+		m.hangUp()
 	}}
 }
 
@@ -38,7 +36,7 @@ func authPlain(name string, mustFail bool, plain func(m *evil, r *rand.Rand) []b
 			return
 		}
 		m.e.Write(m.s.sealStream(plain(m, r)))
-		io.Copy(io.Discard, m.e)
+		m.hangUp()
 	}}
 }
 
@@ -49,7 +47,7 @@ func authFrames(name string, mustFail bool, frames func(m *evil, r *rand.Rand) [
 			return
 		}
 		m.e.Write(frames(m, r))
-		io.Copy(io.Discard, m.e)
+		m.hangUp()
 	}}
 }
 
@@ -102,14 +100,14 @@ func malformedList() []malformed {
 		g := make([]byte, refSealed)
 		r.Read(g)
 		m.e.Write(g)
-		io.Copy(io.Discard, m.e)
+		m.hangUp()
 	}})
 	add(malformed{"eph:honest-then-short-frame", true, func(m *evil, r *rand.Rand) {
 		if m.exchangeEph(nil) != nil {
 			return
 		}
 		m.e.Write(m.s.sealStream(honestAuth(m))[:1000])
-		io.Copy(io.Discard, m.e)
+		m.hangUp()
 	}})
 
 	// ---- auth message, honestly sealed ----
@@ -172,7 +170,8 @@ func malformedList() []malformed {
 	}
 	for _, n := range sortedKeys2(sigVariants) {
 		f := sigVariants[n]
-		add(authPlain("signature:"+n, true, func(m *evil, r *rand.Rand) []byte {
+		// the claimed key is the attacker's own: completing as the attacker is never wrong
+		add(authPlain("signature:"+n, false, func(m *evil, r *rand.Rand) []byte {
 			return authMsg(pubBytes(&m.key.PublicKey), f(m.sign(m.s.challenge[:]), r))
 		}))
 	}
@@ -207,7 +206,7 @@ func malformedList() []malformed {
 		}
 		return out
 	}))
-	add(authFrames("empty-frames-before-message", true, func(m *evil, r *rand.Rand) []byte {
+	add(authFrames("empty-frames-before-message", false, func(m *evil, r *rand.Rand) []byte {
 		var out []byte
 		for i := 0; i < 3; i++ {
 			out = append(out, m.s.sealFrame(nil, 0, 0)...)
@@ -466,5 +465,3 @@ func zeroLengthFrames(c *core.Case) {
 	run.Count("short_and_empty_frame_streams", 1)
 	run.Count("zero_length_frames", nz)
 }
-
-func init() { _ = binary.LittleEndian }
